@@ -144,6 +144,14 @@ impl RemovalBuffer {
 
         if removed_ids.is_empty() {
             self.ids_buffer.push(removed_ids);
+        } else if let Some(existing_ids) = self.removals.get_mut(&entity) {
+            // Keep removals buffered on previous frames of this tick.
+            for removed in removed_ids.drain(..) {
+                if existing_ids.iter().all(|&(id, _)| id != removed.0) {
+                    existing_ids.push(removed);
+                }
+            }
+            self.ids_buffer.push(removed_ids);
         } else {
             self.removals.insert(entity, removed_ids);
         }
